@@ -2,6 +2,7 @@
 // PatternFormatter and by an independent reference written from docs/api/formatters.md on UTF-16 code units.
 // Where the documentation is silent the reference returns an accept-set, or the pattern is left out (counted) — see DESIGN.md.
 #include "common.h"
+#include <algorithm>
 #include "vx_qtlogger.h"
 
 using namespace QtLogger;
@@ -80,8 +81,23 @@ struct RefResult { std::vector<U> accept; bool excluded = false; std::string why
 RefResult reference(const U &pat, const Msg &m)
 {
     RefResult R;
-    std::vector<U> outs { U() };
-    auto put = [&](const std::vector<U> &alts) { std::vector<U> n; for (auto &o : outs) for (auto &a : alts) n.push_back(o + a); outs.swap(n); if (outs.size() > 16) outs.resize(16); };
+    // a candidate output together with the number of characters a missing optional attribute still wants removed
+    // from what follows it (the documentation shows literal neighbours only; for a value neighbour three readings
+    // are accepted: value untouched and the request dropped, value shortened, value shortened and the rest carried on)
+    struct Cand { U s; int pend; bool operator<(const Cand &o) const { return s != o.s ? s < o.s : pend < o.pend; } };
+    std::vector<Cand> outs { { U(), 0 } };
+    auto norm = [&] { std::sort(outs.begin(), outs.end()); outs.erase(std::unique(outs.begin(), outs.end(), [](const Cand &a, const Cand &b) { return a.s == b.s && a.pend == b.pend; }), outs.end());
+                      if (outs.size() > 64) { R.excluded = true; R.why = "accept-set larger than 64 candidates"; outs.resize(64); } };
+    auto put = [&](const std::vector<U> &alts) {
+        std::vector<Cand> n;
+        for (auto &o : outs) for (auto &a : alts) {
+            if (o.pend <= 0) { n.push_back({ o.s + a, 0 }); continue; }
+            size_t cut = std::min((size_t)o.pend, a.size());
+            n.push_back({ o.s + a, 0 });
+            n.push_back({ o.s + a.substr(cut), 0 });
+            n.push_back({ o.s + a.substr(cut), o.pend - (int)cut });
+        }
+        outs.swap(n); norm(); };
     bool haveCond = false; QtMsgType cond = QtDebugMsg;
     bool anyToken = false; // a pattern made of if-/endif only has no token at all: degenerate, left out
     int pendingRemoveAfter = 0; bool lastWasLiteralEmit = false; size_t lastLiteralLen = 0;
@@ -91,18 +107,23 @@ RefResult reference(const U &pat, const Msg &m)
         anyToken = true;
         bool shown = !haveCond || cond == m.type;
         if (shown) {
-            U t = lit;
-            if (pendingRemoveAfter > 0) {
-                if ((size_t)pendingRemoveAfter > t.size()) { R.excluded = true; R.why = "removeAfter longer than the following literal"; }
-                t = t.substr(std::min((size_t)pendingRemoveAfter, t.size()));
-                pendingRemoveAfter = 0;
+            size_t minLen = lit.size();
+            for (auto &o : outs) {
+                U t = lit;
+                if (o.pend > 0) {
+                    if ((size_t)o.pend > t.size()) { R.excluded = true; R.why = "removeAfter longer than the following literal"; }
+                    t = t.substr(std::min((size_t)o.pend, t.size()));
+                    o.pend = 0;
+                }
+                o.s += t; minLen = std::min(minLen, t.size());
             }
-            put({ t });
-            lastWasLiteralEmit = true; lastLiteralLen = t.size();
+            norm();
+            pendingRemoveAfter = 0;
+            lastWasLiteralEmit = true; lastLiteralLen = minLen;
         }
         lit.clear();
     };
-    auto valueEmitted = [&] { if (pendingRemoveAfter > 0) { R.excluded = true; R.why = "removeAfter followed by a value token"; } lastWasLiteralEmit = false; lastLiteralLen = 0; };
+    auto valueEmitted = [&] { pendingRemoveAfter = 0; lastWasLiteralEmit = false; lastLiteralLen = 0; };
     size_t i = 0;
     while (i < pat.size()) {
         if (pat[i] == u'%' && i + 1 < pat.size() && pat[i + 1] == u'%') { lit += u'%'; i += 2; continue; }
@@ -190,11 +211,13 @@ RefResult reference(const U &pat, const Msg &m)
                     // missing optional attribute: remove N characters before, M after — documented for literal neighbours only
                     if (N > 0) {
                         if (!lastWasLiteralEmit || lastLiteralLen < (size_t)N) { R.excluded = true; R.why = "removeBefore reaches beyond the preceding literal"; return R; }
-                        for (auto &o : outs) o.resize(o.size() - N);
+                        for (auto &o : outs) o.s.resize(o.s.size() - N);
                         lastLiteralLen -= N;
                     }
+                    for (auto &o : outs) if (o.pend > 0) { R.excluded = true; R.why = "two pending removeAfter counts"; return R; }
                     if (pendingRemoveAfter > 0) { R.excluded = true; R.why = "two pending removeAfter counts"; return R; }
                     pendingRemoveAfter = M;
+                    for (auto &o : outs) o.pend = M;
                     continue;
                 } else continue;
             }
@@ -217,7 +240,8 @@ RefResult reference(const U &pat, const Msg &m)
     if (haveCond) { R.excluded = true; R.why = "unclosed conditional"; return R; }
     if (pendingRemoveAfter > 0) { /* nothing follows: nothing to remove */ }
     if (pat.empty() || !anyToken) { R.excluded = true; R.why = "empty / degenerate pattern (no token)"; return R; }
-    R.accept = outs;
+    for (auto &o : outs) R.accept.push_back(o.s);
+    std::sort(R.accept.begin(), R.accept.end()); R.accept.erase(std::unique(R.accept.begin(), R.accept.end()), R.accept.end());
     return R;
 }
 
@@ -322,7 +346,7 @@ int main(int argc, char **argv)
                         bool zw = v.contains(QChar(0x200B));
                         std::string key = zw ? "value-contains-U+200B" : (patUtf8.find('!') != std::string::npos || patUtf8.find(":") != std::string::npos ? "spec" : patUtf8.find('?') != std::string::npos ? "optional-attr" : patUtf8.find("if-") != std::string::npos ? "conditional" : "other");
                         sum.violate(key, "pattern " + vx::jesc(pattern) + " with message/attribute value '" + vx::jesc(v) + "' (" + vals[vi].name + "), type " + TYPE_NAME[ty] + ": output '" + vx::jesc(qs(got)) +
-                                             "' but the documented rules give '" + vx::jesc(qs(r.accept.empty() ? U() : r.accept[0])) + "'" + (r.accept.size() > 1 ? " (or " + std::to_string(r.accept.size() - 1) + " accepted variants)" : ""),
+                                             "' but the documented rules give '" + vx::jesc(qs(r.accept.empty() ? U() : *std::max_element(r.accept.begin(), r.accept.end(), [](const U &a, const U &b) { return a.size() < b.size(); }))) + "'" + (r.accept.size() > 1 ? " (or " + std::to_string(r.accept.size() - 1) + " accepted variants)" : ""),
                                     "{\"pattern\":" + vx::jstr(pattern) + ",\"value\":" + vx::jstr(v) + ",\"type\":" + std::to_string(ty) + ",\"sig\":" + std::to_string(si) + "}");
                     } else if (sum.samples.size() < 5 && patUtf8.size() > 18 && vi == 2) {
                         sum.sample("{\"pattern\":" + vx::jstr(pattern) + ",\"value\":" + vx::jstr(v) + ",\"type\":" + vx::jstr(TYPE_NAME[ty]) + ",\"output\":" + vx::jstr(qs(got)) + "}");
